@@ -643,9 +643,19 @@ func c10Twin(e *Env, kind string) {
 		advEvents++
 		advSinceGood = true
 		var raw []byte
-		kindA := t.Choose(8)
+		kindA := t.Choose(9)
 		label := ""
 		switch kindA {
+		case 8:
+			// perfectly well-formed, just unusual: a request with many options (more than the decoder's first guess)
+			m := &WMsg{Type: TCON, Code: 1, MID: uint16(t.Choose(65536)), Token: []byte{0x68}, Opts: []WOpt{{Num: OptURIPath, Val: []byte("count")}}}
+			for k := 0; k < 16+t.Choose(30); k++ {
+				m.Opts = append(m.Opts, WOpt{Num: OptURIQuery, Val: []byte(fmt.Sprintf("q%d=%d", k, k))})
+			}
+			raw, label = EncodeUDP(m), "valid request with many options"
+			if kind == "tcp" {
+				raw = EncodeTCP(m)
+			}
 		case 0:
 			raw, label = garbage(), "arbitrary bytes"
 		case 1:
